@@ -69,7 +69,7 @@ def signature(events):
     for seq, kind, name, f in events:
         if kind in ("get_call", "get_ret"):
             continue
-        role = "w" if name.startswith("vfpool") else name[3:6]
+        role = "w" if poolmon.is_worker_name(name) else name[3:6]
         sig.append(role + ":" + kind)
     return "|".join(sig)
 
@@ -81,6 +81,9 @@ def run_one(ctx, prop, inj, prog, mode, seed, plan=None, p=0.0, probe=True):
     t0 = time.time()
     events = run.execute(growth_probe=probe)
     inj.configure("none")
+    if not events and run.error:
+        ctx.unsure(run.error)
+        return events, {}, run
     case = {"program": prog, "mode": mode, "p": p, "plan": plan, "inj_seed": seed}
     ctx.count("histories")
     ctx.count("events", len(events))
@@ -161,7 +164,13 @@ def run(ctx, prop, focus, n_hist, n_stall, stall_programs=1, n_istall=0):
         if i < 2 and ctx.shard == 0:
             ctx.sample({"program": prog, "mode": mode, "p": p, "n_events": len(events),
                         "first_events": [[e[1], e[2], e[3]] for e in events[:25]]})
-    # 2. stall sweep: each point against small programs
+    # 2. stall sweep: each point against small programs.  The points are the (function, line, thread role) triples
+    #    that phase 1 actually saw being executed - no function name of the pool module is assumed
+    learned = sorted(inj.seen)
+    if learned:
+        pts = [{"qualname": q, "line": l, "role": r, "k": k} for (q, l, r) in learned if r != "main" or True
+               for k in (1, 2, 3)]
+        ctx.counters["stall-points-enumerated"] = len(pts)
     mine = [pt for i, pt in enumerate(pts) if ctx.mine(i)]
     rng.shuffle(mine)
     for pt in mine[:n_stall]:
@@ -173,7 +182,14 @@ def run(ctx, prop, focus, n_hist, n_stall, stall_programs=1, n_istall=0):
             plan = dict(pt, budget=rng.choice([20, 60, 150, 400]), cap=0.03)
             run_one(ctx, prop, inj, prog, "stall", rng.randrange(1 << 30), plan=plan)
     # 3. instruction-level stall sweep (preemption inside a source line, e.g. between the load and the store of `x += 1`)
-    ipts = instruction_stall_points()
+    import jsonrpclib.threadpool as tpmod
+    roles_of = {}
+    for (q, l, r) in inj.seen:
+        roles_of.setdefault(q, set()).add(r)
+    ipts = [{"qualname": q, "offset": off, "role": r, "k": k}
+            for (q, off) in inject.instruction_points(tpmod) for r in sorted(roles_of.get(q, ())) for k in (1, 2)]
+    if not ipts:
+        ipts = instruction_stall_points()
     ctx.counters["instruction-stall-points-enumerated"] = len(ipts)
     imine = [pt for i, pt in enumerate(ipts) if ctx.mine(i)]
     rng.shuffle(imine)
